@@ -1396,3 +1396,55 @@ func VerifC09OptionalQualified() {
 	nd.Assert(h.R != nil, "C08: the other points of the holder are still populated")
 	nd.Cover("optional qualified point without a match")
 }
+
+// C06: a component that lives at its holder's address (the holder's first field, registered as a
+// component of its own) is a different component, not the holder
+type vInnerH struct{ id int }
+
+func (p *vInnerH) M1() int { return p.id }
+
+type vOuterH struct {
+	First  vInnerH
+	Others []vI1 `wire:""`
+	One    vI1   `wire:"inner"`
+}
+
+func VerifC06FirstField() {
+	r := newRHOrder(false)
+	outer := &vOuterH{First: vInnerH{id: 7}}
+	inner := &outer.First
+	pa := &vPA{vAttr{id: 1, nm: "pa"}}
+	withPA := nd.Bool()
+	order := nd.Choose(2)
+	if order == 0 {
+		r.register(outer, "holder")
+		r.register(inner, "inner")
+	} else {
+		r.register(inner, "inner")
+		r.register(outer, "holder")
+	}
+	if withPA {
+		r.register(pa, "pa")
+	}
+	_, err := r.f.doGetComponent("holder")
+	nd.Assert(err == nil, "C06: a point whose candidate lives at the holder's address but is another component is populated")
+	if err != nil {
+		return
+	}
+	nd.Assert(outer.One == vI1(inner), "C07: the point receives exactly the component registered under the requested name")
+	cInner, cPA := 0, 0
+	for _, e := range outer.Others {
+		if e == vI1(inner) {
+			cInner++
+		}
+		if e == vI1(pa) {
+			cPA++
+		}
+	}
+	want := 1
+	if withPA {
+		want = 2
+	}
+	nd.Assert(cInner == 1 && len(outer.Others) == want && (!withPA || cPA == 1), "C06: a slice point receives every compatible component exactly once, except the holder itself")
+	nd.Cover("component at the holder's address")
+}
